@@ -221,4 +221,5 @@ func lifeAlphabet(readers int, bodies []apix.Op, reopen []apix.Cfg, maxTx int) f
 var lifeBodies = []apix.Op{
 	op("put", P("p"), "a", "X"), op("put", P("p"), "b", "s"), op("del", P("p"), "a", ""),
 	{K: "fill", P: P("p"), Key: "k", V: "M", N: 6}, {K: "drain", P: P("p")}, {K: "thin", P: P("p"), N: 3},
+	op("delb", nil, "p", ""), // frees a whole paged bucket while the transaction is still being built
 }
